@@ -16,7 +16,10 @@ def call(env, fn, *args, budget=TICK_BUDGET, tight=TIGHT_LOOP, **kw):
     clock.start(budget, tight)
     try:
         v = fn(*args, **kw)
-        return 'ok', v, clock.stop()
+        t = clock.stop()
+        if budget:
+            env.budget_used_permille = max(getattr(env, 'budget_used_permille', 0), int(1000 * t / budget))
+        return 'ok', v, t
     except env.SimTimeout as e:
         return 'timeout', str(e), clock.stop()
     except RecursionError as e:
